@@ -1207,5 +1207,190 @@ theorem loop_sim {α : Type} (dc : DataCoder α) (a : α) {L : Layouts} {cfg : E
             List.length_append, Nat.add_assoc]
           by_cases hd : hasData s.params = true <;> simp [hd, optOr]
 
+/-! ## the whole message -/
+
+/-- the sections the encoder writes for `vals` -/
+def encodeVisits (L : Layouts) (cfg : EncCfg) (vals : List (List PVal)) (payload : Bits) : List Visit :=
+  encVisits L cfg payload (L.length + 1) 0 vals Registry.init []
+
+theorem encodeBits_rt {α : Type} (dc : DataCoder α) (a : α) {L : Layouts} {cfg : EncCfg} {vals : List (List PVal)}
+    {payload w : Bits} {tr : List (Nat × Nat)} (hL : L.WF = true) (hok : LayoutsOK L = true)
+    (h : encodeBits L cfg vals payload = .ok (w, tr))
+    (hvals : ∀ v ∈ encodeVisits L cfg vals payload, valsOK v.s.params v.vs = true)
+    (hdc : ∀ v ∈ encodeVisits L cfg vals payload, hasData v.s.params = true →
+      ∀ rD, RegRel (register v.reg v.start 0 (beforeData v.s.params) v.vs) rD →
+        ∀ x, dc.dec rD (payload ++ x) = .ok (a, x)) :
+    ∃ secs, SecsRel (encodeVisits L cfg vals payload) secs ∧
+      ∀ suf, decodeBits L dc {} (w ++ suf) = .ok
+        ({ sections := secs,
+           data := if visitsHaveData (encodeVisits L cfg vals payload) = true then some a else none,
+           nbits := w.length }, suf) := by
+  obtain ⟨e0, p0, p1, ps, he0, hopt, hnl, hp, ht0, hn0, hname1, ht1, hn1, hap1⟩ := wf_sec0 hL
+  have he0L := List.mem_of_find?_eq_some he0
+  have hs0WF := wf_all hL e0 he0L
+  have hs0OK := layoutsOK_mem hok he0L
+  unfold encodeBits at h
+  split at h
+  · cases h
+  rename_i reg wl trl hloop
+  split at h
+  · cases h
+  rename_i w2 hpatch
+  split at h
+  · cases h
+  cases h
+  unfold encodeVisits at hvals hdc ⊢
+  cases vals with
+  | nil => simp only [encLoop] at hloop; cases hloop
+  | cons vs0 restv =>
+    have hk : Registry.init.editionKey = 0 := by decide
+    have hcfg : getCfg L 0 0 = .ok e0.layout := by
+      unfold getCfg; rw [he0]
+    have hpres : isPresent Registry.init e0.layout 0 = .ok true := by
+      simp only [isPresent, hopt, Bool.not_false, if_true]
+    simp only [encLoop, hk, hcfg, hpres] at hloop
+    simp only [encVisits, hk, hcfg, hpres] at hvals hdc ⊢
+    split at hloop
+    · cases hloop
+    rename_i reg1 w1 hsec
+    simp only [hsec] at hvals hdc ⊢
+    have hnend : e0.layout.endOfMessage = false := by
+      cases hh : e0.layout.endOfMessage with
+      | false => rfl
+      | true =>
+        obtain ⟨q, hq, _, _⟩ := wf_endOK hL he0L hh
+        rw [hp] at hq; cases hq
+    simp only [hnend, Bool.false_eq_true, if_false] at hloop hvals hdc ⊢
+    -- shape of section 0 as written
+    obtain ⟨hr1, hlen0, B0, hw1, hcase⟩ := encSection_shape hs0WF hsec
+    rcases hcase with ⟨_, x0, ed, hx0, hB0⟩ | ⟨hh, _⟩
+    rotate_left
+    · rw [hnl] at hh; cases hh
+    have hvs0 := hvals _ List.mem_cons_self
+    simp only at hvs0
+    obtain ⟨hrel0, hnd0, hxl0, hrun0⟩ := decSection_noLen dc hs0WF hs0OK hnl hvs0 hx0 Registry.init 0
+    have hpad : padBits ed x0.length = 0 := by
+      apply padBits_16
+      have : noLenAligned e0.layout = true := by
+        simp only [layoutOK, Bool.and_eq_true] at hs0OK; exact hs0OK.1.2
+      simp only [noLenAligned, hnl, Bool.false_or, beq_iff_eq] at this
+      rw [hxl0]; exact this
+    have hw1' : w1 = x0 := by rw [hw1, hB0, hpad]; simp [zeros]
+    subst hw1'
+    -- the two leading parameters
+    have hx := hx0 []
+    rw [hp] at hx hlen0 hvs0
+    cases vs0 with
+    | nil => cases hlen0
+    | cons v0 vs1 =>
+    cases vs1 with
+    | nil => simp at hlen0
+    | cons v1 rest0 =>
+    simp only [encParams] at hx
+    split at hx
+    · cases hx
+    rename_i wa ha
+    split at hx
+    · cases hx
+    rename_i wb hb
+    obtain ⟨y, hy, hysh⟩ := encParams_sh hx
+    cases v0 <;> simp only [encParam, ht0, hn0] at ha <;> try cases ha
+    rename_i b0
+    cases v1 <;> simp only [encParam, ht1, hn1] at hb <;> try cases hb
+    rename_i d
+    have hw4 : writeBytes [] b0 (some (32 / 8)) = bytesToBits (padBytes b0 4) := by
+      simp only [writeBytes, List.nil_append]
+    rw [hw4] at hb
+    obtain ⟨hwb, _, hd0, hdlt⟩ := writeUInt_ok hb
+    subst hwb
+    have hxe : w1 = bytesToBits (padBytes b0 4) ++ toBits 24 d.toNat ++ y := by
+      simpa using hy
+    have hSl : (bytesToBits (padBytes b0 4)).length = 32 := by rw [bytesToBits_length, padBytes_length]
+    have h24 : ∀ v, (toBits 24 v).length = 24 := fun v => toBits_length 24 v
+    -- the registry entry of `length`
+    have hnd := wf_nodup hs0WF
+    rw [hp] at hnd
+    simp only [List.map_cons, List.nodup_cons, List.mem_cons, List.mem_map, not_or] at hnd
+    have hreglen : reg1.get? "length" = some ⟨.int d, 24, 32⟩ := by
+      rw [hr1, hp]
+      simp only [register, hap1, if_true]
+      rw [register_get_other]
+      · simp [Registry.get?, List.lookup, hname1, hn0, hn1]
+      · intro q hq hcon
+        exact hnd.2.1 ⟨q, hq, by rw [hcon.1, hname1]⟩
+    obtain ⟨fs, fl, _, hwl, _, _, _, _, h6⟩ := encLoop_frames hL _ _ _ _ _ _ _ _ _ hloop
+    have hreg : reg.get? "length" = some ⟨.int d, 24, 32⟩ := by rw [h6 (by omega), hreglen]
+    -- the rest of the loop
+    have hrelP : ∀ T : Nat, T < 2 ^ 24 →
+        encParams payload e0.layout.params (.bytes b0 :: .int (Int.ofNat T) :: rest0) [] =
+          .ok ([] ++ (bytesToBits (padBytes b0 4) ++ toBits 24 T ++ y)) := by
+      intro T hT
+      rw [hp]
+      simp only [encParams, encParam, ht0, hn0, ht1, hn1, hw4, writeUInt_ofNat _ 24 T (by decide) hT, hysh,
+        List.nil_append, List.append_assoc]
+    -- the total length field after `patchTotal`
+    have hw2 : ∃ T : Nat, T < 2 ^ 24 ∧
+        w = bytesToBits (padBytes b0 4) ++ toBits 24 T ++ y ++ framesBits (fs ++ [fl]) := by
+      have hwl' : wl = bytesToBits (padBytes b0 4) ++ toBits 24 d.toNat ++ y ++ framesBits (fs ++ [fl]) := by
+        rw [hwl, hxe]
+      unfold patchTotal at hpatch
+      rw [hreg] at hpatch
+      simp only at hpatch
+      split at hpatch
+      · obtain ⟨hw2, _, hT⟩ := setUInt_ok hpatch
+        have htake : wl.take 32 = bytesToBits (padBytes b0 4) := by
+          rw [hwl']; simp only [List.append_assoc]; rw [← hSl, List.take_left]
+        have hdrop : wl.drop (32 + 24) = y ++ framesBits (fs ++ [fl]) := by
+          rw [hwl']
+          have := drop_two (bytesToBits (padBytes b0 4)) (toBits 24 d.toNat) (y ++ framesBits (fs ++ [fl])) 24 (h24 _)
+          rw [hSl] at this
+          simpa only [List.append_assoc] using this
+        rw [htake, hdrop] at hw2
+        exact ⟨_, hT, by rw [hw2]; simp only [List.append_assoc]⟩
+      · split at hpatch
+        · cases hpatch
+        cases hpatch
+        exact ⟨d.toNat, hdlt, hwl'⟩
+    obtain ⟨T, hT, hw2e⟩ := hw2
+    -- section 0 as the decoder sees it
+    have hexp1 : p1.expected = none :=
+      wf_expectedOK hs0WF (by rw [hp]; exact List.mem_cons_of_mem _ List.mem_cons_self) (by rw [ht1]; decide)
+    simp only [valsOK, Bool.and_eq_true] at hvs0
+    have hvs0' : valsOK e0.layout.params (.bytes b0 :: .int (Int.ofNat T) :: rest0) = true := by
+      rw [hp]
+      simp only [valsOK, Bool.and_eq_true]
+      exact ⟨hvs0.1, by simp [valOK, hexp1], hvs0.2.2⟩
+    obtain ⟨x0', hx0e, hx0'⟩ := encParams_sh (hrelP T hT)
+    have hx0'' : x0' = bytesToBits (padBytes b0 4) ++ toBits 24 T ++ y := by
+      have := List.append_cancel_left hx0e; exact this.symm
+    subst hx0''
+    obtain ⟨hrelT, _, _, hrunT⟩ := decSection_noLen dc hs0WF hs0OK hnl hvs0' hx0' Registry.init 0
+    have hrelT' : RelVals e0.layout.params (.bytes b0 :: .int d :: rest0)
+        (List.zipWith canonV e0.layout.params (.bytes b0 :: .int (Int.ofNat T) :: rest0)) := by
+      rw [hp] at hrelT ⊢
+      obtain ⟨a0, c0, _, _, r0⟩ := hrelT
+      exact ⟨a0, c0, Or.inr (Or.inl (Or.inr hname1)), fun _ hc => absurd (hname1 ▸ hc) (by decide), r0⟩
+    generalize List.zipWith canonV e0.layout.params (.bytes b0 :: .int (Int.ofNat T) :: rest0) = vsD0 at hrelT' hrunT
+    generalize hX : bytesToBits (padBytes b0 4) ++ toBits 24 T ++ y = X at hrunT hw2e
+    have hregD1 : RegRel reg1 (register Registry.init 0 0 e0.layout.params vsD0) := by
+      rw [hr1]; exact RegRel_register _ _ _ _ _ _ _ hrelT' RegRel_refl_init
+    have hlen1 : X.length = w1.length := by
+      rw [← hX, hxe]; simp only [List.length_append, h24]
+    -- the remaining sections
+    obtain ⟨B, secs, hwlB, hsecs, hrunL⟩ := loop_sim dc a hL hok _ _ _ _ _ _ _ _ _ hloop
+      (fun v hv => hvals v (List.mem_cons_of_mem _ hv)) (fun v hv => hdc v (List.mem_cons_of_mem _ hv))
+      _ { sections := [] ++ [{ index := e0.layout.index, params := decAcc e0.layout.params vsD0, nbits := X.length }],
+          data := optOr none none, nbits := 0 + X.length } hregD1
+      (by show 0 + _ = w1.length; rw [hlen1]; omega)
+    have hB : framesBits (fs ++ [fl]) = B := List.append_cancel_left (hwl.symm.trans hwlB)
+    refine ⟨{ index := e0.layout.index, params := decAcc e0.layout.params vsD0, nbits := X.length } :: secs,
+      ⟨rfl, ⟨vsD0, rfl, hrelT'⟩, hsecs⟩, fun suf => ?_⟩
+    have hcfg' : getCfg L 0 Registry.init.editionKey = .ok e0.layout := by rw [hk]; exact hcfg
+    rw [hw2e, hB, List.append_assoc]
+    simp only [decodeBits]
+    rw [decLoop_present hcfg' hpres (hrunT (B ++ suf)), if_neg (by simp [hnend]), hrunL suf]
+    simp only [visitsHaveData, List.any_cons, hnd0, Bool.false_or, List.nil_append, List.length_append, Nat.zero_add,
+      optOr, List.cons_append]
+
 end RT
 end Bufr
